@@ -13,6 +13,7 @@ use crate::{
     tables::{BetHeader, BlockEntry, BlockTable, HashEntry, HashTable, HetHeader, HiBlockTable},
 };
 use bytes::Bytes;
+use md5::{Digest, Md5};
 use std::collections::HashMap;
 use std::fs::{File, OpenOptions};
 use std::io::{Read, Seek, SeekFrom, Write};
@@ -114,8 +115,8 @@ pub struct MutableArchive {
     _special_file_blocks: HashMap<String, u32>,
     /// Track whether attributes need updating
     attributes_dirty: bool,
-    /// Track modified blocks for CRC calculation (block_index -> filename)
-    modified_blocks: HashMap<u32, String>,
+    /// Blocks written in this session (block_index -> checksums of the uncompressed data)
+    modified_blocks: HashMap<u32, FileAttributes>,
     /// Updated HET table position for V3+ archives
     updated_het_pos: Option<u64>,
     /// Updated BET table position for V3+ archives  
@@ -419,10 +420,14 @@ impl MutableArchive {
         // Add to hash table
         self.add_to_hash_table(&archive_name, block_index, options.locale)?;
 
-        // Track this block as modified (for attributes CRC calculation)
+        // Track this block as modified, with the checksums (attributes) stores for it.
+        // They are taken from the data being added: the block cannot be read back
+        // through the archive, which still has the tables it was opened with.
         if archive_name != "(attributes)" {
-            self.modified_blocks
-                .insert(block_index, archive_name.clone());
+            let mut checksums = FileAttributes::new();
+            checksums.crc32 = Some(crc32fast::hash(data));
+            checksums.md5 = Some(Md5::digest(data).into());
+            self.modified_blocks.insert(block_index, checksums);
         }
 
         // Update (listfile) if present (but not if we're adding the listfile itself)
@@ -739,7 +744,10 @@ impl MutableArchive {
                     .unwrap_or(0)
             });
 
-        let mut attrs = match Attributes::parse(&Bytes::from(attrs_data), block_count) {
+        // The stored file describes the blocks that existed when it was written (with or
+        // without an entry for itself), usually fewer than the block table has now
+        let stored_count = Attributes::stored_entry_count(&attrs_data).min(block_count);
+        let mut attrs = match Attributes::parse(&Bytes::from(attrs_data), stored_count) {
             Ok(a) => a,
             Err(_) => {
                 // If we can't parse existing attributes, create new ones
@@ -772,49 +780,22 @@ impl MutableArchive {
         // Convert to Windows FILETIME (100ns intervals since 1601-01-01)
         let filetime = (now + 11644473600) * 10_000_000;
 
-        // Update attributes for modified files
-        // First collect the files to process to avoid borrowing issues
-        let modified_files: Vec<(u32, String)> = self
-            .modified_blocks
-            .iter()
-            .map(|(&idx, name)| (idx, name.clone()))
-            .collect();
-
-        for (block_idx, filename) in modified_files {
+        // Update attributes for modified files; every other entry keeps its stored values
+        for (&block_idx, checksums) in &self.modified_blocks {
             let block_idx = block_idx as usize;
             if block_idx >= block_count {
                 continue;
             }
+            let entry = &mut attrs.file_attributes[block_idx];
 
-            // Update timestamp for modified files
             if attrs.flags.has_filetime() {
-                attrs.file_attributes[block_idx].filetime = Some(filetime);
+                entry.filetime = Some(filetime);
             }
-
-            // Calculate CRC32 if enabled
-            if attrs.flags.has_crc32() && filename != "(listfile)" {
-                // Read the uncompressed file data to calculate CRC
-                match self.read_current_file(&filename) {
-                    Ok(data) => {
-                        // Calculate CRC32 using standard algorithm
-                        let crc = crc32fast::hash(&data);
-                        attrs.file_attributes[block_idx].crc32 = Some(crc);
-                    }
-                    Err(_) => {
-                        // If we can't read the file, keep existing CRC or set to 0
-                        if attrs.file_attributes[block_idx].crc32.is_none() {
-                            attrs.file_attributes[block_idx].crc32 = Some(0);
-                        }
-                    }
-                }
+            if attrs.flags.has_crc32() {
+                entry.crc32 = checksums.crc32;
             }
-
-            // MD5 calculation would go here if we had the flag set
-            if attrs.flags.has_md5() && filename != "(listfile)" {
-                // For now, preserve existing MD5 or set to zeros
-                if attrs.file_attributes[block_idx].md5.is_none() {
-                    attrs.file_attributes[block_idx].md5 = Some([0u8; 16]);
-                }
+            if attrs.flags.has_md5() {
+                entry.md5 = checksums.md5;
             }
         }
 
